@@ -3,6 +3,7 @@
 From Coq Require Import Bool List NArith ZArith Lia.
 From M Require Framing2.
 From M Require Framing3.
+From M Require Tie.
 From M Require Framing2.
 From M Require ParserModel.
 Import ListNotations.
@@ -78,4 +79,12 @@ Theorem C06_script_framing_streamed :
 Proof. exact (@Framing3.script_framing_streamed). Qed.
 End T_script_framing_streamed.
 Definition C06_script_framing_streamed := @T_script_framing_streamed.C06_script_framing_streamed.
+
+Module T_tie_line_ending. Import Tie. Local Open Scope bool_scope. Local Open Scope Z_scope.
+Local Open Scope Z_scope.
+Theorem C06_tie_line_ending :
+  Generated.gen_line_ending = [13; 10]%N.
+Proof. exact (@Tie.tie_line_ending). Qed.
+End T_tie_line_ending.
+Definition C06_tie_line_ending := @T_tie_line_ending.C06_tie_line_ending.
 
